@@ -19,7 +19,8 @@ KANI_BACKEND = "kani-0.68/cbmc-6.11/cadical"
 
 class Harness:
     def __init__(self, name, props, owner, text, kind="proof", bound=None, tiers=("quick", "thorough"),
-                 timeout=900, mem_gb=24, covers=0, extra_args=(), functions=(), mod="", must_panic_in=None):
+                 timeout=900, mem_gb=24, covers=0, extra_args=(), functions=(), mod="", must_panic_in=None,
+                 unwind_is_property_in=None):
         self.name = name
         self.props = props
         self.owner = owner
@@ -35,6 +36,9 @@ class Harness:
         # "always panics" harnesses: verification must FAIL, every failed check must lie in a function whose
         # name contains this string, and the VERIF-MARKER-NOT-PANICKED assertion must not be among them
         self.must_panic_in = must_panic_in
+        # wait-freedom harnesses: the unwinding bound of the loop in the named function IS the property ("completes
+        # in one pass unless a write completed"); a failed unwinding assertion there is a violation, not a tool limit
+        self.unwind_is_property_in = unwind_is_property_in
         self.mod = mod              # module path of the file the harness module is appended to
 
     @property
@@ -195,7 +199,11 @@ def classify(parsed, out, rc, harness):
     semantic = []
     limits = []
     for f in parsed["failed"]:
-        if any(re.search(p, f["desc"], re.I) for p in _TOOL_LIMIT_PATTERNS):
+        if (harness.unwind_is_property_in and "unwinding assertion" in f["desc"]
+                and harness.unwind_is_property_in in f["fn"]):
+            semantic.append(dict(f, desc="the loop of %s can go around again within the harness's bound on completed writes "
+                                         "(%s): it waits, or retries without a completed write" % (f["fn"], f["desc"])))
+        elif any(re.search(p, f["desc"], re.I) for p in _TOOL_LIMIT_PATTERNS):
             limits.append(f)
         else:
             semantic.append(f)
